@@ -38,7 +38,7 @@ fn symbols(kinds: &[Kind], with_oneway: bool) -> Vec<(Kind, Flags)> {
 pub fn run_mem(svc: &varlink::VarlinkService, reqs: &[Req], depth: usize) -> MemRun {
     let bytes: Vec<Vec<u8>> = reqs.chunks(depth.max(1)).map(seq_bytes).collect();
     let refs: Vec<&[u8]> = bytes.iter().map(|b| &b[..]).collect();
-    run_chunks(svc, &refs, Caller { keep_reader: false }, None)
+    run_chunks(svc, &refs, Caller { keep_reader: false, flush_upgraded: false }, None)
 }
 
 fn witness(reqs: &[Req], depth: usize, transport: &str, run_out: &[u8], closed: &Option<String>, msg: &str) -> Value {
@@ -361,6 +361,7 @@ fn one_socket_case(ctx: &Ctx, which: &str, svc: &varlink::VarlinkService, addres
         left_in_reader: 0,
         handle_calls: 0,
         out_per_call: vec![],
+        upgrade_input_len: None,
     };
     ctx.count("socket_connections", 1);
     if which == "C01" {
